@@ -6,8 +6,17 @@ Lemmas/CentralityGen.lean proves them equal to the hand-written model.  Tie C: t
 generated functions (`gpipe`, cut indices evaluated by the driver at Float through the generated expression) are run by
 the driver and compared with the real class.
 
-Multiplicities are multiples of 1/2 and travel to the Lean driver as the integers 2*m; percentile edges travel as
-the bit pattern of their double (strictly monotone on non-negative doubles).  The rank boundaries
+LOGICAL values and REPRESENTATIONS are kept apart.  A case is a list of logical multiplicities (exact Python ints /
+Fractions, multiples of 1/2, of any magnitude), a list of logical percentile edges (exact values of doubles) and
+logical queries; the model, the reference and the oracle work on these exact numbers (multiplicities travel to the Lean
+driver as the integers 2*m, edges as the bit pattern of their double).  What the REAL class is handed is a
+representation of them chosen per case: Python lists (and tuples -> documented TypeError) of ints / floats / bools /
+numpy scalars of every dtype, homogeneous or mixed, ndarrays of every integer dtype (int8..int64, uint8..uint64, bool)
+and float16/32/64, read-only and non-contiguous (strided view) arrays, values near the dtype limits and zeros, very
+large Python ints; every query is a scalar of one of those types.  One restriction, stated in the rule: all numbers
+that the code compares with each other in one case are exactly representable in every floating type that occurs among
+them (so magnitudes above 2^53 meet integer-kind scalars only, and int64 is not mixed with uint64 there): numpy's
+lossy int<->float comparison is outside the property's domain.  The rank boundaries
 R_j = int(n * c_j / 100.0) are computed here with Python's float arithmetic and handed to the model as a table
 (the theorems take them as inputs); their contract (non-decreasing, <= n, < n except the last) is checked per case.
 """
@@ -17,27 +26,222 @@ import math
 import struct
 import time
 import warnings
+from fractions import Fraction
 
 import numpy as np
 
 import common
 
 warnings.filterwarnings("ignore")
+np.seterr(all="ignore")
 
 INF = float("inf")
+TWO53 = 2 ** 53
+INT_DT = ["int8", "uint8", "int16", "uint16", "int32", "uint32", "int64", "uint64"]
+FLT_DT = ["float16", "float32", "float64"]
+FLOAT_TYPES = ["float"] + ["np." + d for d in FLT_DT]
+INT_TYPES = ["int", "bool", "np.bool_"] + ["np." + d for d in INT_DT]
+SIGNED_NP = ["np.int8", "np.int16", "np.int32", "np.int64"]
+
+
+# ------------------------------------------------------------------ logical values (exact) and their representations
+def exact(x) -> Fraction:
+    """the exact value of any scalar the class may be handed or may return"""
+    if isinstance(x, Fraction):
+        return x
+    if isinstance(x, (bool, np.bool_)):
+        return Fraction(int(x))
+    if isinstance(x, (int, np.integer)):
+        return Fraction(int(x))
+    if isinstance(x, (float, np.floating)):
+        return Fraction(float(x))          # float16 / float32 -> double is exact
+    if isinstance(x, str):
+        return Fraction(x)
+    raise TypeError(f"not a number of the fragment: {x!r}")
+
+
+def lv(x):
+    """logical value: Python int when integral, else Fraction"""
+    f = exact(x)
+    return int(f) if f.denominator == 1 else f
+
+
+def jv(v):
+    """JSON form of a logical value (int, exact float, or 'p/q')"""
+    f = exact(v)
+    if f.denominator == 1:
+        return int(f)
+    try:
+        if Fraction(float(f)) == f:
+            return float(f)
+    except OverflowError:
+        pass
+    return str(f)
+
+
+def can(t: str, v) -> bool:
+    """is the logical value v exactly representable as a scalar of type t"""
+    f = exact(v)
+    if t == "int":
+        return f.denominator == 1
+    if t in ("bool", "np.bool_"):
+        return f in (0, 1)
+    if t == "float" or t == "np.float64":
+        try:
+            return Fraction(float(f)) == f
+        except OverflowError:
+            return False
+    dt = t[3:]
+    if dt in INT_DT:
+        ii = np.iinfo(dt)
+        return f.denominator == 1 and ii.min <= f <= ii.max
+    if dt in FLT_DT:
+        try:
+            d = float(f)
+        except OverflowError:
+            return False
+        if Fraction(d) != f:
+            return False
+        r = np.dtype(dt).type(d)
+        return bool(np.isfinite(r)) and Fraction(float(r)) == f
+    raise ValueError(t)
+
+
+def mk(t: str, v):
+    """the scalar of type t holding the logical value v (caller checked `can`)"""
+    f = exact(v)
+    if t == "int":
+        return int(f)
+    if t == "bool":
+        return bool(int(f))
+    if t == "float":
+        return float(f)
+    if t == "np.bool_":
+        return np.bool_(bool(int(f)))
+    dt = t[3:]
+    if dt in INT_DT:
+        return np.dtype(dt).type(int(f))
+    return np.dtype(dt).type(float(f))
+
+
+def palette(vals, family=None):
+    """scalar types that may occur together in one group of mutually compared numbers: every floating type must hold
+    ALL values of the group exactly; when some value is not a double, int64-family and uint64 are not mixed (numpy
+    compares them in float64).  family: 'intkind' (no floating type at all) | 'u64' | 'signed' | None"""
+    F = [] if family == "intkind" else [t for t in FLOAT_TYPES if all(can(t, v) for v in vals)]
+    I = list(INT_TYPES)
+    if any(exact(v) >= 2 ** 63 for v in vals):
+        # numpy cannot compare np.bool_ with a Python int outside the C long range (OverflowError)
+        I.remove("np.bool_")
+    if any(exact(v) >= 2 ** 64 for v in vals):
+        # no numpy integer type holds such a value: np.mean / np.array of a list that mixes it with numpy integer
+        # scalars raises OverflowError; Python ints beyond 64 bits are generated in lists of Python numbers only
+        I = [t for t in I if not t.startswith("np.")]
+    if not all(can("np.float64", v) for v in vals):
+        if family == "u64":
+            I = [t for t in I if t not in SIGNED_NP]
+        else:
+            I = [t for t in I if t != "np.uint64"]
+    return F + I
+
+
+def eligible(pal, v):
+    return [t for t in pal if can(t, v)]
+
+
+def choose_rep(rng, vals, pal, allow_tuple=True):
+    """a representation (JSON-able spec) of the list of logical values, drawn from the palette"""
+    opts = []
+    for t in pal:
+        if vals and all(can(t, v) for v in vals):
+            opts.append((dict(c="list", t=[t] * len(vals)), 3.0 if t in ("int", "float") else 1.0))
+            if t.startswith("np."):
+                opts.append((dict(c="nd", t=t[3:].rstrip("_")), 2.5))
+    if all(eligible(pal, v) for v in vals):
+        opts.append((dict(c="list", t=None), 5.0))
+    if not opts:
+        return None
+    spec = dict(rng.choices([o for o, _ in opts], weights=[w for _, w in opts])[0])
+    if spec["c"] == "list" and spec["t"] is None:
+        spec["t"] = [rng.choice(eligible(pal, v)) for v in vals]
+    if spec["c"] == "nd":
+        spec["ro"] = rng.random() < 0.25
+        spec["nc"] = rng.random() < 0.25
+    elif allow_tuple and rng.random() < 0.01:
+        spec["c"] = "tuple"
+    return spec
+
+
+def plain_rep(vals):
+    """the plainest representation: a list of Python ints / floats"""
+    return dict(c="list", t=["int" if can("int", v) else "float" for v in vals])
+
+
+def build_rep(spec, vals):
+    """the Python object for the logical values under the spec (a fresh object on every call: the class may sort its
+    argument in place)"""
+    if spec["c"] in ("list", "tuple"):
+        xs = [mk(t, v) for t, v in zip(spec["t"], vals)]
+        if len(xs) != len(vals) or len(spec["t"]) != len(vals):
+            raise ValueError("spec / value length mismatch")
+        return xs if spec["c"] == "list" else tuple(xs)
+    dt = spec["t"]
+    t = "np.bool_" if dt == "bool" else "np." + dt
+    if not all(can(t, v) for v in vals):
+        raise ValueError("value not representable in dtype " + dt)
+    py = [int(exact(v)) if (dt in INT_DT or dt == "bool") else float(exact(v)) for v in vals]
+    if spec.get("nc"):
+        # a strided view into a larger buffer whose other entries are plausible multiplicities too
+        n = len(py)
+        base = np.zeros(2 * n + 1, dtype=dt)
+        base[0::2] = np.array([py[(7 * i + 3) % n] for i in range(n + 1)] if n else [0], dtype=dt)
+        base[1::2] = np.array(py, dtype=dt)
+        arr = base[1::2]
+    else:
+        arr = np.array(py, dtype=dt)
+    if spec.get("ro"):
+        arr.setflags(write=False)
+    return arr
+
+
+def rep_types(spec):
+    if spec["c"] == "nd":
+        return ["np.bool_" if spec["t"] == "bool" else "np." + spec["t"]]
+    return sorted(set(spec["t"]))
+
+
+def rep_tag(spec):
+    if spec["c"] == "nd":
+        return "nd:" + spec["t"] + ("+ro" if spec.get("ro") else "") + ("+nc" if spec.get("nc") else "")
+    ts = set(spec["t"])
+    return spec["c"] + ":" + (next(iter(ts)) if len(ts) == 1 else "mixed" if ts else "empty")
+
+
+def family_of(spec, vals):
+    """the palette family a representation belongs to (deterministic; used by the oracle and by replay)"""
+    ts = rep_types(spec)
+    fam = None
+    if not any(t in FLOAT_TYPES for t in ts) and all(can("int", v) for v in vals) \
+            and not all(can("np.float64", v) for v in vals):
+        fam = "intkind"
+    if "np.uint64" in ts and not any(t in SIGNED_NP for t in ts) and not all(can("np.float64", v) for v in vals):
+        fam = "u64"
+    return fam
 
 
 # ------------------------------------------------------------------ keys (strictly monotone maps to int)
 def mkey(m) -> int:
-    """multiplicity (multiple of 1/2) -> integer"""
-    k = float(m) * 2.0
-    assert k == int(k), m
+    """multiplicity (multiple of 1/2, any magnitude) -> integer"""
+    k = exact(m) * 2
+    assert k.denominator == 1, m
     return int(k)
 
 
 def ekey(c) -> int:
-    """percentile edge (any finite double / int) -> integer, strictly monotone, -0.0 == 0.0, 10 == 10.0"""
-    f = float(c)
+    """percentile edge (exact value of a double) -> integer, strictly monotone, -0.0 == 0.0, 10 == 10.0 == np.int8(10)"""
+    e = exact(c)
+    f = float(e)
+    assert Fraction(f) == e, c
     if f == 0.0:
         return 0
     b = struct.unpack("<q", struct.pack("<d", abs(f)))[0]
@@ -45,8 +249,8 @@ def ekey(c) -> int:
 
 
 def rank_of(n: int, c) -> int:
-    """the expression of the source: int(number_events * centrality_bins_[i] / 100.0)"""
-    return int(n * c / 100.0)
+    """the expression of the source on the logical edge: int(number_events * float(edge) / 100.0) in doubles"""
+    return int(n * float(exact(c)) / 100.0)
 
 
 def ilist(xs) -> str:
@@ -55,9 +259,9 @@ def ilist(xs) -> str:
 
 # ------------------------------------------------------------------ real code
 def real_obj(sample, edges):
+    """sample / edges are the represented objects; they are handed over as they are"""
     from sparkx.CentralityClasses import CentralityClasses
-    e = list(edges) if not isinstance(edges, np.ndarray) else edges.copy()  # the constructor sorts in place
-    return CentralityClasses(events_multiplicity=sample, centrality_bins=e)
+    return CentralityClasses(events_multiplicity=sample, centrality_bins=edges)
 
 
 def real_cls(obj, q):
@@ -65,6 +269,8 @@ def real_cls(obj, q):
         c = obj.get_centrality_class(q)
     except IndexError:
         return "E"
+    except Exception as e:  # noqa: BLE001 - any other exception is a difference from the model
+        return f"?{type(e).__name__}"
     if isinstance(c, bool) or not isinstance(c, (int, np.integer)):
         return f"?{c!r}"
     return str(int(c))
@@ -75,6 +281,10 @@ def show(xs):
     return ";".join(xs) if xs else "-"
 
 
+def is_inf(m):
+    return isinstance(m, (float, np.floating)) and m == INF
+
+
 def real_canon(sample, edges, queries):
     """canonical text of what the real class does, in the driver's answer format"""
     try:
@@ -83,15 +293,23 @@ def real_canon(sample, edges, queries):
         return "err value", None
     except IndexError:
         return "err index", None
-    mins = ["inf" if m == INF else str(mkey(m)) for m in obj.dNchdetaMin_]
-    maxs = [str(mkey(m)) for m in obj.dNchdetaMax_]
-    bins = [str(ekey(c)) for c in obj.centrality_bins_]
+    except TypeError:
+        return "err type", None
+    except Exception as e:  # noqa: BLE001
+        return f"err other:{type(e).__name__}", None
+    try:
+        mins = ["inf" if is_inf(m) else str(mkey(m)) for m in obj.dNchdetaMin_]
+        maxs = [str(mkey(m)) for m in obj.dNchdetaMax_]
+        bins = [str(ekey(c)) for c in obj.centrality_bins_]
+    except Exception as e:  # noqa: BLE001 - a stored value that is not one of the given numbers
+        return f"ok ?{type(e).__name__} mins={obj.dNchdetaMin_!r} maxs={obj.dNchdetaMax_!r}", obj
     cls = [real_cls(obj, q) for q in queries]
     return f"ok {show(bins)} {show(mins)} {show(maxs)} {show(cls)}", obj
 
 
 # ------------------------------------------------------------------ generators
 def gen_sample(rng, allow_bad=True):
+    """logical multiplicities (exact ints / Fractions) and the name of the value profile"""
     u = rng.random()
     if allow_bad and u < 0.04:
         n = rng.randint(0, 3)
@@ -99,7 +317,8 @@ def gen_sample(rng, allow_bad=True):
         n = rng.randint(4, 12)
     else:
         n = rng.randint(13, 40)
-    style = rng.choice(["ties", "ties", "distinct", "allequal", "twolevel", "wide", "halves"])
+    style = rng.choice(["ties", "ties", "distinct", "allequal", "twolevel", "wide", "halves",
+                        "limit", "limit", "limit", "bigpy", "f16", "f32", "bool"])
     if style == "ties":
         span = rng.randint(1, max(1, n // 2 + 1))
         xs = [rng.randint(0, span) for _ in range(n)]
@@ -112,11 +331,26 @@ def gen_sample(rng, allow_bad=True):
         xs = [rng.choice([a, b]) for _ in range(n)]
     elif style == "wide":
         xs = [int(rng.expovariate(1 / 40.0)) for _ in range(n)]
+    elif style == "limit":
+        # values at and near the limits of one integer dtype, zeros, and values in between
+        M = int(np.iinfo(rng.choice(INT_DT)).max)
+        pool = [0, 0, 0, 1, 2, M, M, M - 1, M - 2, M // 2, M // 2 + 1]
+        xs = [rng.choice(pool) if rng.random() < 0.7 else rng.randint(0, M) for _ in range(n)]
+        style = f"limit/{M.bit_length()}bit"
+    elif style == "bigpy":
+        pool = [0, 1, TWO53, TWO53 + 1, 2 ** 63, 2 ** 64, 2 ** 64 + 1, 10 ** 30, 10 ** 30 - 1, 3 * 10 ** 18]
+        xs = [rng.choice(pool) if rng.random() < 0.8 else rng.randint(0, 10 ** 30) for _ in range(n)]
+    elif style == "f16":
+        xs = [Fraction(rng.choice([0, 1, 2047, 2048, rng.randint(0, 2048)]), 2) for _ in range(n)]   # halves, exact in float16
+    elif style == "f32":
+        xs = [Fraction(rng.choice([0, 1, 2 ** 24 - 1, 2 ** 24, rng.randint(0, 2 ** 24)]), 2) for _ in range(n)]
+    elif style == "bool":
+        xs = [rng.randint(0, 1) for _ in range(n)]
     else:
-        xs = [rng.randint(0, 2 * n) / 2.0 for _ in range(n)]
+        xs = [Fraction(rng.randint(0, 2 * n), 2) for _ in range(n)]
     if allow_bad and n and rng.random() < 0.03:
         xs[rng.randrange(n)] = -rng.randint(1, 3)
-    return xs, style
+    return [lv(x) for x in xs], style
 
 
 def gen_edges(rng, n, allow_bad=True):
@@ -178,21 +412,64 @@ def gen_edges(rng, n, allow_bad=True):
 
 
 def gen_queries(rng, sample):
+    """logical queries as integer keys 2*q: every sample value, its neighbours at distance 1/2 and 1, 0, values above"""
     ks = {mkey(x) for x in sample}
     qs = set()
     for k in ks:
-        qs.update((k - 1, k, k + 1))
+        qs.update((k - 2, k - 1, k, k + 1, k + 2))
     top = max(0, max(ks)) if ks else 0
-    qs.update((0, top + 2, top + 20, rng.randint(0, top + 4)))
+    qs.update((0, top + 4, top + 20, 2 * rng.randint(0, top // 2 + 2), rng.randint(0, top + 4)))
     qs = sorted(q for q in qs if q >= 0)
     return qs
 
 
-def as_py(k, rng=None):
-    """integer key -> the multiplicity handed to the real code (int or float)"""
-    if k % 2 == 0 and (rng is None or rng.random() < 0.6):
-        return k // 2
-    return k / 2.0
+def represent(rng, sample, edges, queries, allow_tuple=True):
+    """choose how the logical case is handed to the real class.  Returns None when no representation exists, else
+    dict(sample, edges, queries (possibly fewer), srep, erep, qtypes).  Multiplicities and queries share one palette
+    (they are compared with each other), the edges have their own."""
+    fam = None
+    if sample and all(can("int", v) for v in sample):
+        if not all(can("np.float64", v) for v in sample):
+            fam = rng.choice(["intkind", "u64", "signed"])
+        elif rng.random() < 0.15:
+            fam = "intkind"
+    pal = palette(sample, fam)
+    floats = [t for t in pal if t in FLOAT_TYPES]
+    # a query must be exact in every floating type of the palette, and have a type of its own
+    qv = [(k, Fraction(k, 2)) for k in queries]
+    qv = [(k, v) for k, v in qv if all(can(t, v) for t in floats) and eligible(pal, v)]
+    srep = choose_rep(rng, sample, pal, allow_tuple)
+    if srep is None:
+        return None
+    qtypes = [rng.choice(eligible(pal, v)) for _, v in qv]
+    # edges: optionally first rounded into a low-precision floating type (the rounded numbers ARE the logical edges)
+    edges = [lv(c) for c in edges]
+    if edges and rng.random() < 0.25:
+        ft = rng.choice(["float16", "float32"])
+        edges = [lv(float(np.dtype(ft).type(float(exact(c))))) for c in edges]
+    epal = palette(edges)
+    erep = choose_rep(rng, edges, epal, allow_tuple)
+    if erep is None:
+        return None
+    return dict(sample=list(sample), edges=edges, queries=[k for k, _ in qv], srep=srep, erep=erep, qtypes=qtypes)
+
+
+def typed_queries(case):
+    return [mk(t, Fraction(k, 2)) for k, t in zip(case["queries"], case["qtypes"])]
+
+
+def oracle_qtypes(sample, srep, qvals):
+    """deterministic scalar types for the oracle's queries (same palette rule as `represent`)"""
+    pal = palette(sample, family_of(srep, sample))
+    floats = [t for t in pal if t in FLOAT_TYPES]
+    out = []
+    for j, v in enumerate(qvals):
+        if not all(can(t, v) for t in floats):
+            out.append(None)
+            continue
+        el = eligible(pal, v)
+        out.append(el[(j + len(sample)) % len(el)] if el else None)
+    return out
 
 
 def features(sample, edges):
@@ -256,10 +533,23 @@ def check_contract(ctx, sample, obj):
 
 
 def one_case(rng, allow_bad=True):
-    sample, sstyle = gen_sample(rng, allow_bad)
-    edges, etags = gen_edges(rng, len(sample), allow_bad)
-    queries = gen_queries(rng, sample)
-    return sample, edges, queries, sstyle, etags
+    """a logical case together with its representation; re-drawn until a representation exists"""
+    while True:
+        sample, sstyle = gen_sample(rng, allow_bad)
+        edges, etags = gen_edges(rng, len(sample), allow_bad)
+        queries = gen_queries(rng, sample)
+        case = represent(rng, sample, edges, queries, allow_tuple=allow_bad)
+        if case is not None:
+            case.update(sstyle=sstyle, etags=etags)
+            return case
+
+
+def plain_case(rng, sample, edges, sstyle):
+    """corpus / exhaustive inputs: given logical values, random representation"""
+    sample = [lv(x) for x in sample]
+    case = represent(rng, sample, edges, gen_queries(rng, sample), allow_tuple=False)
+    case.update(sstyle=sstyle, etags=[])
+    return case
 
 
 def exhaustive_cases():
@@ -273,58 +563,79 @@ def exhaustive_cases():
                 yield list(xs), list(es)
 
 
+def jcase(case, **more):
+    """JSON form of a case (logical values + representation), as written into evidence samples and replay files"""
+    d = dict(sample=[jv(x) for x in case["sample"]], edges=[jv(c) for c in case["edges"]],
+             srep=case["srep"], erep=case["erep"])
+    if "queries" in case:
+        d.update(queries=list(case["queries"]), qtypes=list(case["qtypes"]))
+    d.update(more)
+    return d
+
+
 def correspond(ctx):
     rng = ctx.rng
-    ctx.rule = ("random samples (0-40 events; ties / distinct / all equal / two levels / wide / half-integers; "
-                "int, float and numpy inputs) x edge lists (1-6 classes; regular / random / first or middle class narrower "
-                "than one event / non-integer percentiles; unsorted, duplicated, not starting at 0 or not ending at 100, "
-                "plus a malformed stream: <4 events, negative multiplicity, <2 edges, out-of-range edge); every sample "
-                "value and its neighbours +-1/2, 0 and values above the maximum are queried. non-trivial = admissible "
-                "case with a tie across a class boundary, an empty rank interval, uneven classes, or unsorted/duplicated "
-                "edges; distinct by canonical input. Thorough adds all samples of 4-5 events over {0,1,2} x 10 edge lists.")
+    ctx.rule = ("LOGICAL cases: random samples (0-40 events; ties / distinct / all equal / two levels / wide / half-integers / "
+                "values at and near the limits of every integer dtype with zeros / Python ints up to 1e30 / halves at the "
+                "float16 and float32 precision limits / 0-1 values) x edge lists (1-6 classes; regular / random / first or "
+                "middle class narrower than one event / non-integer percentiles, also rounded to float16 / float32; unsorted, "
+                "duplicated, not starting at 0 or not ending at 100, plus a malformed stream: <4 events, negative "
+                "multiplicity, <2 edges, out-of-range edge); every sample value, its neighbours at +-1/2 and +-1, 0 and "
+                "values above the maximum are queried.  REPRESENTATION drawn per case for both inputs: lists of Python "
+                "ints / floats / bools / numpy scalars of every dtype (homogeneous or mixed per element), tuples (must raise "
+                "the documented TypeError), ndarrays of int8..int64, uint8..uint64, bool, float16/32/64, read-only and "
+                "non-contiguous; every query a scalar of a drawn type.  Restriction: the numbers compared with each other "
+                "in one case (multiplicities + queries; edges among themselves) are exact in every floating type occurring "
+                "among them, and where a value is not a double int64-family and uint64 are not mixed - i.e. magnitudes "
+                "above 2^53 meet integer-kind scalars only (numpy's lossy int<->float comparison is outside the property's "
+                "domain).  The model and the reference see the exact logical values.  non-trivial = admissible case with a "
+                "tie across a class boundary, an empty rank interval, uneven classes, or unsorted/duplicated edges; distinct "
+                "by canonical input + representation. Thorough adds all samples of 4-5 events over {0,1,2} x 10 edge lists.")
     ctx.assumptions.append("C19: rank boundaries int(n*c/100.0) are evaluated by Python and handed to the model; per case the "
                            "harness checks they are non-decreasing, <= n, and < n except the last (hypotheses of the theorems)")
+    ctx.assumptions.append("C19 domain: multiplicities / queries above 2^53 are generated only with integer-kind scalars (Python "
+                           "int, one numpy integer family), and no floating scalar type occurs in a case unless it holds every "
+                           "compared number exactly: numpy compares int64/uint64 with floats (and with each other) in float64, "
+                           "which is lossy at magnitudes no multiplicity has; such mixes are outside the property's domain")
     ncases = ctx.n(500, 20000)
     cases = []
-    for case in corpus():
-        cases.append((case["sample"], case["edges"], gen_queries(rng, case["sample"]), "corpus", []))
+    for c in corpus():
+        cases.append(case_of_input(rng, c, "corpus"))
     for _ in range(ncases):
         cases.append(one_case(rng))
     if ctx.thorough:
         for xs, es in exhaustive_cases():
-            cases.append((xs, es, gen_queries(rng, xs), "exhaustive", []))
-    lines, metas = [], []
-    for sample, edges, queries, sstyle, etags in cases:
-        mode = rng.choice(["int", "mixed", "float", "numpy"])
-        if mode == "int" and all(mkey(x) % 2 == 0 for x in sample):
-            s_py = [int(x) for x in sample]
-        elif mode == "float":
-            s_py = [float(x) for x in sample]
-        elif mode == "numpy" and sample:
-            s_py = np.array([float(x) for x in sample])
-        else:
-            s_py = [as_py(mkey(x), rng) for x in sample]
-        e_py = np.array([float(c) for c in edges]) if (edges and rng.random() < 0.1) else list(edges)
-        q_py = [as_py(q, rng) for q in queries]
-        lines.append(build_line("fix", sample, edges, queries))
-        metas.append((sample, edges, queries, s_py, e_py, q_py, sstyle, etags))
+            cases.append(plain_case(rng, xs, es, "exhaustive"))
+    lines = [build_line("fix", c["sample"], c["edges"], c["queries"]) for c in cases]
     outs = common.run_driver("C19", lines)
-    gouts = common.run_driver("C19", [gen_line(*m[:3]) for m in metas])
-    nbroken = 0
+    gouts = common.run_driver("C19", [gen_line(c["sample"], c["edges"], c["queries"]) for c in cases])
     mism = []
     gmism = []
-    for i, (meta, out) in enumerate(zip(metas, outs)):
-        sample, edges, queries, s_py, e_py, q_py, sstyle, etags = meta
-        real, obj = real_canon(s_py, e_py, q_py)
+    reals = []
+    for i, (case, out) in enumerate(zip(cases, outs)):
+        sample, edges = case["sample"], case["edges"]
+        stag, etag = rep_tag(case["srep"]), rep_tag(case["erep"])
+        ctx.count("srep/" + stag)
+        ctx.count("erep/" + etag)
+        for t in set(case["qtypes"]):
+            ctx.count("qtype/" + t)
+        real, obj = real_canon(build_rep(case["srep"], sample), build_rep(case["erep"], edges), typed_queries(case))
+        reals.append(real)
+        if "tuple" in (case["srep"]["c"], case["erep"]["c"]):
+            # documented: TypeError unless list / numpy.ndarray (not part of the model)
+            ctx.count("answer/" + real.split(" ")[0] + "-" + (real.split(" ")[1] if real.startswith("err") else "ok"))
+            if real != "err type":
+                ctx.brk("correspondence-broken", f"a tuple argument does not raise the documented TypeError: {real}",
+                        case=jcase(case, code=real))
+            continue
         feats = features(sample, edges)
         nontriv = feats != ["inadmissible"] and bool(set(feats) & {"tie-at-boundary", "empty-leading", "empty-middle", "uneven"}
-                                                     or set(etags) & {"unsorted", "dup"})
-        canon = (tuple(mkey(x) for x in sample), tuple(ekey(c) for c in edges))
-        ctx.case(canon, nontriv, sample=dict(sample=[float(x) for x in sample], edges=[float(c) for c in edges],
-                                             code=real, model=out) if nontriv else None)
-        ctx.count(f"sample/{sstyle}")
+                                                     or set(case["etags"]) & {"unsorted", "dup"})
+        canon = (tuple(mkey(x) for x in sample), tuple(ekey(c) for c in edges), stag, etag)
+        ctx.case(canon, nontriv, sample=jcase(case, code=real, model=out) if nontriv else None)
+        ctx.count(f"sample/{case['sstyle']}")
         ctx.count("n/" + ("<4" if len(sample) < 4 else "4-12" if len(sample) <= 12 else "13-40"))
-        for t in feats + etags:
+        for t in feats + case["etags"]:
             ctx.count("feat/" + t)
         ctx.count("answer/" + real.split(" ")[0] + ("-" + real.split(" ")[1] if real.startswith("err") else ""))
         if obj is not None:
@@ -332,145 +643,220 @@ def correspond(ctx):
             ctx.count(f"classes/{len(obj.dNchdetaMin_)}")
         if real != out:
             mism.append(i)
-            nbroken += 1
         if real != gouts[i]:
             gmism.append(i)
     ctx.cov["generated_model_mismatches"] = len(gmism)
+
+    def by_rep(idx):
+        h = {}
+        for i in idx:
+            k = rep_tag(cases[i]["srep"]) + " | " + rep_tag(cases[i]["erep"])
+            h[k] = h.get(k, 0) + 1
+        return dict(sorted(h.items(), key=lambda kv: -kv[1])[:8])
+
     if gmism:
         i = gmism[0]
-        sample, edges, queries = metas[i][:3]
-        real, _ = real_canon(metas[i][3], metas[i][4], metas[i][5])
         ctx.brk("correspondence-broken",
-                f"generated model (Gen/Centrality.lean, cut indices at Float): {len(gmism)} of {len(metas)} cases differ; "
-                f"first: sample={sample} edges={edges}: code `{real}` vs generated `{gouts[i]}`",
-                case=dict(sample=[float(x) for x in sample], edges=[float(c) for c in edges], queries=queries,
-                          code=real, model=gouts[i]))
+                f"generated model (Gen/Centrality.lean, cut indices at Float): {len(gmism)} of {len(cases)} cases differ "
+                f"(by representation: {by_rep(gmism)}); first: sample={cases[i]['sample']} as {rep_tag(cases[i]['srep'])} "
+                f"edges={cases[i]['edges']} as {rep_tag(cases[i]['erep'])}: code `{reals[i]}` vs generated `{gouts[i]}`",
+                case=jcase(cases[i], code=reals[i], model=gouts[i]),
+                more_cases=[jcase(cases[j]) for j in gmism[1:12]])
     if mism:
         # classify: does the real code behave like the model of the code before the repair?
-        wl = [build_line("wrap", *metas[i][:3]) for i in mism[:200]]
+        wl = [build_line("wrap", cases[i]["sample"], cases[i]["edges"], cases[i]["queries"]) for i in mism[:200]]
         wouts = common.run_driver("C19", wl)
-        like_wrap = sum(1 for i, w in zip(mism[:200], wouts) if real_canon(metas[i][3], metas[i][4], metas[i][5])[0] == w)
+        like_wrap = sum(1 for i, w in zip(mism[:200], wouts) if reals[i] == w)
         i = mism[0]
-        sample, edges, queries = metas[i][:3]
-        real, _ = real_canon(metas[i][3], metas[i][4], metas[i][5])
         ctx.brk("correspondence-broken",
-                f"{nbroken} of {len(metas)} cases differ; first: sample={sample} edges={edges}: code `{real}` vs model `{outs[i]}`"
+                f"{len(mism)} of {len(cases)} cases differ (by representation: {by_rep(mism)}); first: "
+                f"sample={cases[i]['sample']} as {rep_tag(cases[i]['srep'])} edges={cases[i]['edges']} as "
+                f"{rep_tag(cases[i]['erep'])}: code `{reals[i]}` vs model `{outs[i]}`"
                 + (f"; {like_wrap} of the first {len(wl)} differing cases agree with the pre-repair model "
                    f"(record[MaxRecord-1] with negative-index wrap)" if like_wrap else ""),
-                case=dict(sample=[float(x) for x in sample], edges=[float(c) for c in edges], queries=queries,
-                          code=real, model=outs[i]))
-    ctx.cov["correspondence_mismatches"] = nbroken
+                case=jcase(cases[i], code=reals[i], model=outs[i]),
+                more_cases=[jcase(cases[j]) for j in mism[1:12]])
+    ctx.cov["correspondence_mismatches"] = len(mism)
 
 
 # ------------------------------------------------------------------ oracle on the real code (independent of the model)
+def case_of_input(rng, inp, sstyle="replay"):
+    """a case from a corpus / replay / broken-case dict: logical values, and the representation if it was recorded
+    (otherwise a random one when rng is given, else the plain one)"""
+    sample = [lv(x) for x in inp["sample"]]
+    edges = [lv(c) for c in inp["edges"]]
+    if "srep" in inp and "erep" in inp:
+        case = dict(sample=sample, edges=edges, srep=inp["srep"], erep=inp["erep"])
+        if "queries" in inp and "qtypes" in inp:
+            case.update(queries=list(inp["queries"]), qtypes=list(inp["qtypes"]))
+        else:
+            qs = gen_queries(__import__("random").Random(0), sample)
+            qt = oracle_qtypes(sample, case["srep"], [Fraction(k, 2) for k in qs])
+            case.update(queries=[k for k, t in zip(qs, qt) if t], qtypes=[t for t in qt if t])
+    elif rng is not None:
+        case = represent(rng, sample, edges, gen_queries(rng, sample), allow_tuple=False)
+    else:
+        case = dict(sample=sample, edges=edges, srep=plain_rep(sample), erep=plain_rep(edges))
+    case.setdefault("sstyle", sstyle)
+    case.setdefault("etags", [])
+    return case
+
+
 def admissible(sample, edges):
     try:
-        cl = {float(c) for c in edges}
+        cl = {exact(c) for c in edges}
     except Exception:
         return False
     return len(sample) >= 4 and all(x >= 0 for x in sample) and all(0 <= c <= 100 for c in cl) and len(cl) >= 2
 
 
-def oracle_check(sample, edges):
-    """None, or (key, what, detail) when the real code violates the property on this admissible input.
-    Rank-based definition: class i owns the descending ranks [R_i, R_{i+1}), R_j = int(n*c_j/100.0) over the sorted
-    distinct edges."""
+def oracle_check(sample, edges, srep=None, erep=None):
+    """None, or (key, what, detail) when the real code violates the property on this admissible input, handed over in
+    the given representation (default: plain lists of Python numbers).  The reference works on the exact logical
+    values.  Rank-based definition: class i owns the descending ranks [R_i, R_{i+1}), R_j = int(n*c_j/100.0) over the
+    sorted distinct edges."""
+    sample = [lv(x) for x in sample]
+    edges = [lv(c) for c in edges]
     if not admissible(sample, edges):
         return None
+    srep = srep or plain_rep(sample)
+    erep = erep or plain_rep(edges)
+    if "tuple" in (srep["c"], erep["c"]):
+        return None
+    try:
+        build_rep(srep, sample), build_rep(erep, edges)
+    except Exception:
+        return None  # (a shrinking step left the representation's range)
     n = len(sample)
-    cleaned = sorted({float(c) for c in edges})
+    cleaned = sorted({exact(c) for c in edges})
     R = [rank_of(n, c) for c in cleaned]
     N = len(cleaned) - 1
-    srt = sorted(sample, reverse=True)
+    srt = sorted((exact(x) for x in sample), reverse=True)
     leading = R[0] == 0 and R[1] == 0
-    inp = dict(sample=list(sample), edges=list(edges))
+    rtag = f"{rep_tag(srep)} | {rep_tag(erep)}"
     try:
-        obj = real_obj(list(sample), list(edges))
-        bins = [float(c) for c in obj.centrality_bins_]
+        obj = real_obj(build_rep(srep, sample), build_rep(erep, edges))
+        bins = [exact(c) for c in obj.centrality_bins_]
         if bins != cleaned:
-            return ("clean-invariance", f"centrality_bins_ {bins} is not the sorted duplicate-free edge list {cleaned}",
-                    dict(expected=cleaned, observed=bins))
-        vals = sorted({float(x) for x in sample})
-        qs = {0.0, vals[-1] + 1.0, vals[-1] + 100.0}
+            return ("clean-invariance", f"[{rtag}] centrality_bins_ {[jv(b) for b in bins]} is not the sorted duplicate-free "
+                    f"edge list {[jv(c) for c in cleaned]}", dict(expected=[jv(c) for c in cleaned], observed=[jv(b) for b in bins]))
+        vals = sorted(set(srt))
+        qs = {Fraction(0), vals[-1] + 1, vals[-1] + 100}
         for a in vals:
-            qs.update((a, a + 0.5, max(0.0, a - 0.5)))
+            qs.update((a, a + Fraction(1, 2), a + 1, max(Fraction(0), a - Fraction(1, 2)), max(Fraction(0), a - 1)))
         qs = sorted(qs)
+        qt = oracle_qtypes(sample, srep, qs)
+        qs, qt = [q for q, t in zip(qs, qt) if t], [t for t in qt if t]
         cls = {}
-        for q in qs:
-            c = obj.get_centrality_class(q)
+        for q, t in zip(qs, qt):
+            c = obj.get_centrality_class(mk(t, q))
             if isinstance(c, bool) or not isinstance(c, (int, np.integer)) or not (0 <= c < N):
-                return ("total", f"get_centrality_class({q}) = {c!r}, not a class index in 0..{N - 1}",
-                        dict(query=q, observed=repr(c), classes=N))
+                return ("total", f"[{rtag}] get_centrality_class({t}({jv(q)})) = {c!r}, not a class index in 0..{N - 1}",
+                        dict(query=jv(q), qtype=t, observed=repr(c), classes=N))
             cls[q] = int(c)
         for a, b in zip(qs, qs[1:]):
             if cls[b] > cls[a]:
                 return ("monotone" + (":leading-class-narrower-than-one-event" if leading else ""),
-                        f"multiplicity {b} > {a} is assigned the more peripheral class {cls[b]} > {cls[a]}",
-                        dict(queries=[a, b], observed=[cls[a], cls[b]]))
+                        f"[{rtag}] multiplicity {jv(b)} > {jv(a)} is assigned the more peripheral class {cls[b]} > {cls[a]}",
+                        dict(queries=[jv(a), jv(b)], observed=[cls[a], cls[b]]))
         for i in range(N):
             for r in range(R[i], R[i + 1]):
-                x = float(srt[r])
+                x = srt[r]
+                if x not in cls:
+                    continue
                 c = cls[x]
                 tie_prev = R[i] > 0 and srt[R[i] - 1] == srt[r]
                 if not (c == i or (c < i and tie_prev)):
                     return ("rank-consistency" + (":leading-class-narrower-than-one-event" if leading else ""),
-                            f"event of descending rank {r} (multiplicity {x}) lies in the rank interval [{R[i]},{R[i+1]}) of class {i} "
-                            f"but is assigned class {c}" + ("" if tie_prev else " and is not tied with the event before the interval"),
-                            dict(rank=r, multiplicity=x, expected_class=i, observed_class=c, rank_boundaries=R,
-                                 dNchdetaMin_=[float(m) for m in obj.dNchdetaMin_]))
+                            f"[{rtag}] event of descending rank {r} (multiplicity {jv(x)}) lies in the rank interval "
+                            f"[{R[i]},{R[i+1]}) of class {i} but is assigned class {c}"
+                            + ("" if tie_prev else " and is not tied with the event before the interval"),
+                            dict(rank=r, multiplicity=jv(x), expected_class=i, observed_class=c, rank_boundaries=R,
+                                 dNchdetaMin_=[repr(m) for m in obj.dNchdetaMin_]))
+
+        def stored(obj_):
+            return ([None if is_inf(m) else exact(m) for m in obj_.dNchdetaMin_], [exact(m) for m in obj_.dNchdetaMax_])
+        smin, smax = stored(obj)
         for i in range(N):
             if R[i] < R[i + 1]:
                 seg = srt[R[i]:R[i + 1]]
-                if obj.dNchdetaMin_[i] != min(seg) or obj.dNchdetaMax_[i] != max(seg):
-                    return ("min-max", f"class {i}: stored (min,max)=({obj.dNchdetaMin_[i]},{obj.dNchdetaMax_[i]}) but its rank interval "
-                            f"[{R[i]},{R[i+1]}) holds {seg}", dict(cls=i, expected=[min(seg), max(seg)],
-                                                                  observed=[float(obj.dNchdetaMin_[i]), float(obj.dNchdetaMax_[i])]))
-        obj2 = real_obj(list(sample), list(cleaned))
-        if ([float(m) for m in obj2.dNchdetaMin_] != [float(m) for m in obj.dNchdetaMin_]
-                or [float(m) for m in obj2.dNchdetaMax_] != [float(m) for m in obj.dNchdetaMax_]
-                or any(obj2.get_centrality_class(q) != cls[q] for q in qs)):
-            return ("clean-invariance", f"edges {list(edges)} and their cleaned form {cleaned} give different classes",
-                    dict(raw_min=[float(m) for m in obj.dNchdetaMin_], clean_min=[float(m) for m in obj2.dNchdetaMin_]))
+                if smin[i] != min(seg) or smax[i] != max(seg):
+                    return ("min-max", f"[{rtag}] class {i}: stored (min,max)=({obj.dNchdetaMin_[i]!r},{obj.dNchdetaMax_[i]!r}) but "
+                            f"its rank interval [{R[i]},{R[i+1]}) holds {[jv(v) for v in seg]}",
+                            dict(cls=i, expected=[jv(min(seg)), jv(max(seg))],
+                                 observed=[repr(obj.dNchdetaMin_[i]), repr(obj.dNchdetaMax_[i])]))
+        # the same classes from the cleaned edge list (plain Python numbers)
+        obj2 = real_obj(build_rep(srep, sample), build_rep(plain_rep(cleaned), cleaned))
+        if stored(obj2) != (smin, smax) or any(obj2.get_centrality_class(mk(t, q)) != cls[q] for q, t in zip(qs, qt)):
+            return ("clean-invariance", f"[{rtag}] edges {[jv(c) for c in edges]} and their cleaned form "
+                    f"{[jv(c) for c in cleaned]} give different classes",
+                    dict(raw_min=[repr(m) for m in obj.dNchdetaMin_], clean_min=[repr(m) for m in obj2.dNchdetaMin_]))
+        # ... and from the plain-list representation of the same logical input (representation independence)
+        obj3 = real_obj(build_rep(plain_rep(sample), sample) if all(can("float", v) or can("int", v) for v in sample)
+                        else build_rep(srep, sample), build_rep(plain_rep(edges), edges))
+        if stored(obj3) != (smin, smax):
+            return ("representation", f"[{rtag}] the same numbers as plain Python lists give other classes: "
+                    f"min {obj.dNchdetaMin_!r} vs {obj3.dNchdetaMin_!r}",
+                    dict(repr_min=[repr(m) for m in obj.dNchdetaMin_], plain_min=[repr(m) for m in obj3.dNchdetaMin_]))
     except Exception as e:  # an admissible input must not raise
-        return ("exception", f"admissible input raises {type(e).__name__}: {e}", dict(exception=type(e).__name__))
+        return ("exception", f"[{rtag}] admissible input raises {type(e).__name__}: {e}", dict(exception=type(e).__name__))
     return None
 
 
-def shrink(sample, edges, key):
-    cur_s, cur_e = list(sample), list(edges)
+def drop_at(spec, i):
+    if spec["c"] == "nd":
+        return spec
+    return dict(spec, t=spec["t"][:i] + spec["t"][i + 1:])
 
-    def bad(s, e):
-        r = oracle_check(s, e)
+
+def shrink(case, key):
+    """delta debugging on events / edges, then on the representation; the case keeps failing with the same key"""
+    cs, ce, rs, re_ = list(case["sample"]), list(case["edges"]), case["srep"], case["erep"]
+
+    def bad(s, e, r1, r2):
+        r = oracle_check(s, e, r1, r2)
         return r is not None and r[0] == key
 
     changed = True
     while changed:
         changed = False
-        for i in range(len(cur_s)):
-            if len(cur_s) > 4:
-                c = cur_s[:i] + cur_s[i + 1:]
-                if bad(c, cur_e):
-                    cur_s, changed = c, True
-                    break
+        for i in range(len(cs)):
+            if len(cs) > 4 and bad(cs[:i] + cs[i + 1:], ce, drop_at(rs, i), re_):
+                cs, rs, changed = cs[:i] + cs[i + 1:], drop_at(rs, i), True
+                break
         if changed:
             continue
-        for i in range(len(cur_e)):
-            if len(cur_e) > 2:
-                c = cur_e[:i] + cur_e[i + 1:]
-                if bad(cur_s, c):
-                    cur_e, changed = c, True
-                    break
+        for i in range(len(ce)):
+            if len(ce) > 2 and bad(cs, ce[:i] + ce[i + 1:], rs, drop_at(re_, i)):
+                ce, re_, changed = ce[:i] + ce[i + 1:], drop_at(re_, i), True
+                break
         if changed:
             continue
-        # compress the values to their dense ranks
-        vals = sorted(set(cur_s))
-        dense = [vals.index(x) for x in cur_s]
-        if dense != cur_s and bad(dense, cur_e):
-            cur_s, changed = dense, True
+        # compress the values to their dense ranks (when the representation can still hold them)
+        vals = sorted(set(cs))
+        dense = [vals.index(x) for x in cs]
+        if dense != cs and bad(dense, ce, rs, re_):
+            cs, changed = dense, True
             continue
-        if cur_e != sorted(set(cur_e)) and bad(cur_s, sorted(set(cur_e))):
-            cur_e, changed = sorted(set(cur_e)), True
-    return cur_s, cur_e
+        # simpler representations: no flags, plain lists
+        for cand in ([dict(rs, ro=False, nc=False)] if rs["c"] == "nd" and (rs.get("ro") or rs.get("nc")) else []) + \
+                ([plain_rep(cs)] if rs != plain_rep(cs) else []):
+            if bad(cs, ce, cand, re_):
+                rs, changed = cand, True
+                break
+        if changed:
+            continue
+        for cand in ([dict(re_, ro=False, nc=False)] if re_["c"] == "nd" and (re_.get("ro") or re_.get("nc")) else []) + \
+                ([plain_rep(ce)] if re_ != plain_rep(ce) else []):
+            if bad(cs, ce, rs, cand):
+                re_, changed = cand, True
+                break
+        if changed:
+            continue
+        srt_e = sorted(set(ce))
+        if ce != srt_e and re_["c"] != "nd" and bad(cs, srt_e, rs, plain_rep(srt_e)):
+            ce, re_, changed = srt_e, plain_rep(srt_e), True
+    return dict(sample=cs, edges=ce, srep=rs, erep=re_)
 
 
 def search(ctx, budget_s):
@@ -479,46 +865,41 @@ def search(ctx, budget_s):
     n = 0
     found = set()
 
-    def report(sample, edges, r):
-        if r[0] in found:
-            return
-        found.add(r[0])
-        s, e = shrink(sample, edges, r[0])
-        r2 = oracle_check(s, e) or r
-        ctx.violation(r2[0], r2[1], dict(input=dict(sample=s, edges=e), detail=r2[2],
-                                         how_to_replay="./check C19 --replay <this file>"))
-
-    for case in corpus():
-        r = oracle_check(case["sample"], case["edges"])
+    def check(case):
+        nonlocal n
         n += 1
-        if r:
-            report(case["sample"], case["edges"], r)
-    # region where model and code first differed
+        r = oracle_check(case["sample"], case["edges"], case["srep"], case["erep"])
+        if r and r[0] not in found:
+            found.add(r[0])
+            m = shrink(case, r[0])
+            r2 = oracle_check(m["sample"], m["edges"], m["srep"], m["erep"]) or r
+            ctx.violation(r2[0], r2[1], dict(input=jcase(m), detail=r2[2],
+                                             how_to_replay="./check C19 --replay <this file>"))
+        return r
+
+    for c in corpus():
+        check(case_of_input(None, c))
+        check(case_of_input(rng, c))
+    # region where model and code first differed (with the representation it was handed over in)
     for b in ctx.broken:
-        c = b.get("case")
-        if c and "sample" in c:
-            r = oracle_check(c["sample"], c["edges"])
-            n += 1
-            if r:
-                report(c["sample"], c["edges"], r)
+        for c in [b.get("case")] + list(b.get("more_cases") or []):
+            if c and "sample" in c:
+                check(case_of_input(None, c))
     if ctx.thorough or ctx.broken:
         for xs, es in exhaustive_cases():
             if time.time() - t0 > budget_s / 2:
                 break
-            r = oracle_check(xs, es)
-            n += 1
-            if r:
-                report(xs, es, r)
+            check(plain_case(rng, xs, es, "exhaustive"))
     limit = 30000 if ctx.thorough else 1500
     while time.time() - t0 < budget_s and n < limit and len(found) < 3:
-        sample, edges, _, _, _ = one_case(rng, allow_bad=False)
-        if not admissible(sample, edges):
+        case = one_case(rng, allow_bad=False)
+        if not admissible(case["sample"], case["edges"]):
             continue
-        r = oracle_check(sample, edges)
-        n += 1
-        ctx.case(("oracle", tuple(sample), tuple(edges)), bool(set(features(sample, edges)) & {"tie-at-boundary", "empty-leading", "empty-middle", "uneven"}))
-        if r:
-            report(sample, edges, r)
+        check(case)
+        ctx.case(("oracle", tuple(mkey(x) for x in case["sample"]), tuple(ekey(c) for c in case["edges"]),
+                  rep_tag(case["srep"]), rep_tag(case["erep"])),
+                 bool(set(features(case["sample"], case["edges"])) & {"tie-at-boundary", "empty-leading", "empty-middle", "uneven"}))
+        ctx.count("oracle-srep/" + rep_tag(case["srep"]))
     ctx.cov["oracle_cases"] = n
     ctx.count("oracle", n)
 
@@ -542,12 +923,18 @@ def replay(ctx, path):
             print(f"[C19] replay file names a broken obligation, not an input: {d.get('broken')}")
             return 1
         inp = c
-    sample, edges = inp["sample"], inp["edges"]
-    qs = gen_queries(ctx.rng, sample)
-    real, _ = real_canon([as_py(mkey(x)) for x in sample], list(edges), [as_py(q) for q in qs])
-    model, gmodel = common.run_driver("C19", [build_line("fix", sample, edges, qs), gen_line(sample, edges, qs)])
-    print(f"[C19] sample={sample} edges={edges}\n[C19] code : {real}\n[C19] model: {model}\n[C19] gen  : {gmodel}")
-    r = oracle_check(sample, edges)
+    case = case_of_input(None, inp)
+    sample, edges = case["sample"], case["edges"]
+    if "queries" not in case:
+        qs = gen_queries(ctx.rng, sample)
+        qt = oracle_qtypes(sample, case["srep"], [Fraction(k, 2) for k in qs])
+        case.update(queries=[k for k, t in zip(qs, qt) if t], qtypes=[t for t in qt if t])
+    real, _ = real_canon(build_rep(case["srep"], sample), build_rep(case["erep"], edges), typed_queries(case))
+    model, gmodel = common.run_driver("C19", [build_line("fix", sample, edges, case["queries"]),
+                                              gen_line(sample, edges, case["queries"])])
+    print(f"[C19] sample={[jv(x) for x in sample]} as {rep_tag(case['srep'])}  edges={[jv(c) for c in edges]} as "
+          f"{rep_tag(case['erep'])}\n[C19] code : {real}\n[C19] model: {model}\n[C19] gen  : {gmodel}")
+    r = oracle_check(sample, edges, case["srep"], case["erep"])
     if r:
         print(f"VIOLATION property=C19 replay={path}")
         print(r[1])
